@@ -59,10 +59,11 @@ type Choice struct {
 
 // Options configure one execution.
 type Options struct {
-	Fuel      int64 // tick limit (0 = 1<<40)
-	Prefix    []int // choices to replay; afterwards alternative 0 is taken
-	YieldTick bool  // Tick sites are scheduler yield points
-	MapChoice bool  // MapSeq order is a choice (else canonical)
+	Fuel       int64 // tick limit (0 = 1<<40)
+	Prefix     []int // choices to replay; afterwards alternative 0 is taken
+	YieldTick  bool  // Tick sites are scheduler yield points
+	MapChoice  bool  // MapSeq order is a choice (else canonical)
+	FixedSched bool  // scheduling points always take the canonical alternative and are not recorded as choices
 	// OnYield, if set, is called at every scheduling point before the choice
 	// (used for shared-state digests in solo runs).
 	OnYield func(site string)
@@ -215,6 +216,9 @@ func (e *exec) enabledLocked() []*thread {
 // chooseLocked is the single point where nondeterminism enters.
 func (e *exec) chooseLocked(n int, kind string, cost []int8) int {
 	if n <= 1 {
+		return 0
+	}
+	if kind == "sched" && e.opt.FixedSched {
 		return 0
 	}
 	pick := 0
